@@ -13,6 +13,10 @@ func init() {
 			rulePresenceFlag(c)
 			ruleMapSlot(c)
 			ruleEntryPresence(c)
+			ruleNestedPresence(c)
+			ruleProtoMapEntry(c)
+			rulePresenceStore(c)
+			ruleMapDescriptor(c)
 			// stale memory in a re-used slot reads an encoded nil back as the old non-nil pointer
 			ruleClearBeforeRead(c)
 			// a present value stays on the wire even when its body is empty: the tagged form always writes the tag
